@@ -687,3 +687,7 @@ def run(ctx):
     from checks import C10
 
     C10.rule_memo(ctx, px, R="R-C07-MEMO")  # output must be a function of the inputs within one process as well
+    # the files of a run are generated in the iteration order of a set of namespaces (hash order: it changes with PYTHONHASHSEED and
+    # with the location of the inputs).  That order is harmless exactly while no file's text depends on what was rendered before it
+    C10.rule_state(ctx, px, R="R-C07-CROSS-FILE", why="[generation order is hash order; it must not reach the text] ")
+    C10.rule_context_free(ctx, px, ts, "R-C07-CROSS-FILE")
